@@ -7,6 +7,8 @@ between two phases of an operation (no change to /repo: the wrappers are install
    locked       locked_index.__enter__ returned (tree store: index.lock held, index read)
    tree-read    BareGitStore._get_current_tree returned inside _import_one/delete_one
    commit       just before _commit_tree (objects written, ref/index not yet)
+   committed    _commit_tree returned (the ref has moved; tree store: index.lock is still held and the
+                index file is not rewritten yet)
 An operation runs in a worker (a thread of this process, or a process of its own); the
 controller lets worker A run up to its i-th yield point, then runs worker B to completion (or
 until it is seen to block), then lets A finish.  Every i is explored: all single-pre-emption
@@ -109,7 +111,9 @@ def install():
 
         def commit(self, *a, _orig=orig_commit, **kw):
             _yield("commit")
-            return _orig(self, *a, **kw)
+            r = _orig(self, *a, **kw)
+            _yield("committed")
+            return r
         cls._commit_tree = commit
 
         for meth in ("_import_one", "delete_one"):
